@@ -486,6 +486,16 @@ func (u *Unit) oblige(st *State, kind, anchor string, goal T, human string) *Obl
 		u.assume(st, goal)
 		return nil
 	}
+	if u.opts.LocksOnly {
+		// lock-discipline run: only guard obligations, lock preconditions and lock postconditions are
+		// obligations; everything else belongs to the other plans
+		isLock := kind == "guard" || strings.Contains(anchor, "locks-")
+		if !isLock {
+			// neither checked nor assumed: a goal of another plan that does not hold on some path must
+			// not prune that path here
+			return nil
+		}
+	}
 	noAssume := false
 	if kind == "assert-noassume" {
 		kind = "assert"
